@@ -36,6 +36,16 @@ MOS = [
 ]
 
 
+INDEX_DOCS = call(r"= QueryHashCache::index_entry_doc_ids\(", name="index_entry_doc_ids(new results)")
+UNINDEX_DOCS = call(r"= QueryHashCache::unindex_entry_docs\(", name="unindex_entry_docs(old results)")
+MOS.append(MO("O7.5/reverse_index", "insert_with_k_scoped_internal: the doc -> query reverse index is updated old-first (un-index the replaced/evicted entry, then index the new one), so ids present in both result lists stay indexed; "
+              "every stored entry is indexed; remove_entry un-indexes",
+              allof(never(Q + "insert_with_k_scoped_internal", UNINDEX_DOCS, frm=INDEX_DOCS),
+                    follows(Q + "insert_with_k_scoped_internal", CACHE_INSERT, INDEX_DOCS, exit="any", exit_ev=anyev(r"^_0 = ", name="return")),
+                    lambda F: FnCheck(F, Q + "remove_entry").reachable(UNINDEX_DOCS)),
+              functions=[("query_hash_cache.rs", "insert_with_k_scoped_internal"), ("query_hash_cache.rs", "remove_entry")]))
+
+
 def _closure_reads_generation(F, fname):
     from vlib.mirflow import find_fn
     rn, fn = find_fn(F, fname)
